@@ -9,3 +9,15 @@ package types
 //@ trusted func (hvs *HeightVoteSet) Precommits(round uint32) (r *types.VoteSet)
 //@ trusted func (hvs *HeightVoteSet) POLInfo() (polRound uint32, polBlockID types.BlockID)
 //@ trusted func (rs *RoundState) RoundStateEvent() (r types.EventDataRoundState)
+
+// ---------------------------------------------------------------- C18: a peer cannot make the node allocate vote sets without bound
+// A vote for a round the node does not track creates that round's vote sets only while the sending peer
+// has fewer than two such catch-up rounds on its account, and the new round is charged to the peer
+// BEFORE the vote is judged (a vote that then fails validation still counts against the peer).
+//@ spec func catchupCount(hvs *HeightVoteSet, peerID p2p.ID) int = ite(has(hvs.peerCatchupRounds, peerID), len(hvs.peerCatchupRounds[peerID]), 0)
+//@ func (hvs *HeightVoteSet) AddVote(vote *types.Vote, peerID p2p.ID) (added bool, err error)
+//@   for C18
+//@   requires hvs != nil && vote != nil
+//@   modifies *
+//@   atcall addRound requires [atMostTwoCatchupRoundsPerPeer] catchupCount(hvs, peerID) < 2
+//@   atcall VoteSet.AddVote requires [newRoundChargedBeforeTheVoteIsJudged] !old(has(hvs.roundVoteSets, vote.Round)) ==> catchupCount(hvs, peerID) == old(catchupCount(hvs, peerID)) + 1
